@@ -18,7 +18,7 @@ def _root_.W2c2Verif.Gen.VT.idx : VT → Nat | .i32 => 0 | .i64 => 1 | .f32 => 2
 def _root_.W2c2Verif.Gen.VT.cty (t : VT) : Option CTy := (Gen.valueTypeNames[t.idx]?).bind CTy.ofName
 /-- `signedTypeNames[t]` (only two entries: indexing with f32/f64 is out of bounds in c.c) -/
 def _root_.W2c2Verif.Gen.VT.signedCty (t : VT) : Option CTy := (Gen.signedTypeNames[t.idx]?).bind CTy.ofName
-def _root_.W2c2Verif.Gen.VT.shiftMask (t : VT) : Option Nat := (Gen.shiftMaskStrings[t.idx]?).bind String.toNat?
+def _root_.W2c2Verif.Gen.VT.shiftMask (t : VT) : Option Nat := Gen.shiftMaskValues[t.idx]?
 
 def slotName (t : VT) (i : Nat) : String :=
   String.ofList [Gen.stackNamePrefix, (Gen.valueTypeStackNames[t.idx]?).getD '?'] ++ toString i
@@ -31,21 +31,13 @@ def binOpOfString : String → Option BinOp
   | "==" => some .eq | "!=" => some .ne | "<" => some .lt | "<=" => some .le | ">" => some .gt | ">=" => some .ge
   | _ => none
 
-/-- parse a cast chain `(T1)(T2)…` into the list of types, outermost first -/
-def parseCastChain (s : String) : Option (List CTy) :=
-  if s.isEmpty then some [] else
-  let parts := (s.splitOn ")").filter (· ≠ "")
-  parts.mapM fun p => if p.startsWith "(" then CTy.ofName (p.drop 1).toString else none
-
-def isIdent (s : String) : Bool :=
-  !s.isEmpty && s.toList.all (fun c => c.isAlphanum || c == '_') && !(s.toList.head!.isDigit)
-
-/-- `operator(x)` as written by wasmCWriteUnaryExpr -/
-def unaryExpr (op : String) (x : CExpr) : Option CExpr :=
-  if op = "!" then some (.un .lnot x)
-  else if op = "-" then some (.un .neg x)
-  else if isIdent op then some (.call1 op x)
-  else (parseCastChain op).map fun ts => ts.foldr (fun t e => .cast t e) x
+/-- `operator(x)` as written by wasmCWriteUnaryExpr, from the parsed shape of the operator string -/
+def unaryExpr (sh : UnShape) (x : CExpr) : CExpr :=
+  match sh with
+  | .lnot => .un .lnot x
+  | .neg => .un .neg x
+  | .call f => .call1 f x
+  | .casts ts => ts.foldr (fun t e => .cast t e) x
 
 structure NumEmit where
   stmt : CStmt
@@ -56,9 +48,8 @@ structure NumEmit where
 /-- the statement for one numeric opcode; `t1,i1` = second-from-top entry, `t0,i0` = top -/
 def numEmit (opcode : String) (k : EmitKind) (t1 : VT) (i1 : Nat) (t0 : VT) (i0 : Nat) : Option NumEmit :=
   match k with
-  | .unary rt op => do
-    let e ← unaryExpr op (.var (slotName t0 i0))
-    some ⟨.assign (slotName rt i0) e, rt, i0⟩
+  | .unary rt _ sh =>
+    some ⟨.assign (slotName rt i0) (unaryExpr sh (.var (slotName t0 i0))), rt, i0⟩
   | .infix rt op assign => do
     let bop ← binOpOfString op
     if assign then
